@@ -582,7 +582,7 @@ def check_pair(S, ua, ub, fn, tag, isas):
     for el in rest:
         oi, i, c, on, a, b, x, y = el
         if not isinstance(a, FV): bits.append(el); continue
-        try: er.append(el + (E.fp(a.fp), E.fp(b.fp)))
+        try: er.append(el + (E.fp(x), E.fp(y)))
         except (Unsupported, z3.Z3Exception, AttributeError) as e: bits.append(el)       # the code relies on rounding itself (magic-number tricks) or on bit patterns: compared bit-precisely instead
     for oi, i, c, on, a, b, x, y in bits:
         pr.prove_eq(vname(on, 'bits'), x, y, oi, i, timeout=S.cap(60, 180), what='[bit-identical; rounding erasure not applicable]')
@@ -652,7 +652,7 @@ def check_lowp(S, pr, rest):
     import erase as _er
     E = _er.Eraser(); EPS = z3.RealVal('3/8192'); TOL = z3.RealVal('1/2048')
     for oi, i, c, on, a, b, x, y in rest:
-        try: ea, eb = E.fp(a.fp), E.fp(b.fp)
+        try: ea, eb = E.fp(x), E.fp(y)
         except (Unsupported, z3.Z3Exception, AttributeError) as e:
             S.rec(name=vname(on, 'lowp'), kind='encode', result='unsupported', status='not-encoded', note=str(e)[:200], mandatory=True, functions=pr.fnlist); S.inconclusive.append('%s [not encoded: %s]' % (vname(on, 'lowp'), str(e)[:100])); continue
         ax = []; pos = []
